@@ -1067,27 +1067,160 @@ theorem labelsEq_trans {a b c : Labels} (hab : labelsEq a b = true) (hbc : label
   rw [Bool.and_eq_true] at hab hbc ⊢
   exact ⟨labelsEq_half_trans hab.1 hbc.1, labelsEq_half_trans hbc.2 hab.2⟩
 
+/-! ### the pods in key order -/
+
+theorem sortedPods_perm (e : Engine) : e.sortedPods.Perm e.pods := List.mergeSort_perm _ _
+
+theorem mem_sortedPods {e : Engine} {p : Pod} : p ∈ e.sortedPods ↔ p ∈ e.pods :=
+  (sortedPods_perm e).mem_iff
+
+/-- the sorted pods are sorted -/
+theorem sortedPods_sorted (e : Engine) : e.sortedPods.Pairwise (fun a b => podKey a ≤ podKey b) := by
+  have := List.pairwise_mergeSort (le := fun a b : Pod => decide (podKey a ≤ podKey b))
+    (fun a b c h1 h2 => by
+      simp only [decide_eq_true_eq] at *
+      exact String.le_trans h1 h2)
+    (fun a b => by
+      simp only [Bool.or_eq_true, decide_eq_true_eq]
+      exact String.le_total _ _) e.pods
+  exact this.imp (fun h => by simpa using h)
+
+theorem eq_of_podKey_eq_of_sorted {l : List Pod} (hs : l.Pairwise (fun a b => podKey a < podKey b))
+    {a b : Pod} (ha : a ∈ l) (hb : b ∈ l) (hk : podKey a = podKey b) : a = b := by
+  induction l with
+  | nil => cases hb
+  | cons x xs ih =>
+    rw [List.pairwise_cons] at hs
+    rcases List.mem_cons.mp ha with rfl | hax <;> rcases List.mem_cons.mp hb with rfl | hbx
+    · rfl
+    · have := hs.1 b hbx; rw [hk] at this; exact absurd this (String.lt_irrefl _)
+    · have := hs.1 a hax; rw [← hk] at this; exact absurd this (String.lt_irrefl _)
+    · exact ih hs.2 hax hbx
+
+/-- a strictly key-sorted arrangement of the pods is the sorted pod list (for evaluating
+`podOwnersMap` on concrete engines: `mergeSort` is defined by well-founded recursion, `decide`
+cannot unfold it) -/
+theorem sortedPods_eq {e : Engine} {l : List Pod} (hp : l.Perm e.pods)
+    (hs : l.Pairwise (fun a b => podKey a < podKey b)) : e.sortedPods = l := by
+  refine List.Perm.eq_of_pairwise (le := fun a b => podKey a ≤ podKey b) ?_ (sortedPods_sorted e)
+    (hs.imp (fun h => String.not_lt.mp (String.lt_asymm h))) ((sortedPods_perm e).trans hp.symm)
+  intro a b ha hb h1 h2
+  exact eq_of_podKey_eq_of_sorted hs (hp.mem_iff.mpr (mem_sortedPods.mp ha)) hb
+    (String.le_antisymm h1 h2)
+
+/-! an insertion sort by key, which `decide` can run (it compares keys only and moves the pods
+around unevaluated); on pod maps — unique keys — it is the `mergeSort` of `sortedPods` -/
+
+/-- insert a pod into a key-sorted list -/
+def insertPod (p : Pod) : List Pod → List Pod
+  | [] => [p]
+  | q :: qs => if podKey p ≤ podKey q then p :: q :: qs else q :: insertPod p qs
+
+/-- insertion sort by key -/
+def isortPods (l : List Pod) : List Pod := l.foldr insertPod []
+
+theorem insertPod_perm (p : Pod) (l : List Pod) : (insertPod p l).Perm (p :: l) := by
+  induction l with
+  | nil => exact List.Perm.refl _
+  | cons q qs ih =>
+    unfold insertPod
+    split
+    · exact List.Perm.refl _
+    · exact (List.Perm.cons q ih).trans (List.Perm.swap p q qs)
+
+theorem isortPods_perm (l : List Pod) : (isortPods l).Perm l := by
+  induction l with
+  | nil => exact List.Perm.refl _
+  | cons p l ih => exact (insertPod_perm p _).trans (List.Perm.cons p ih)
+
+theorem insertPod_sorted (p : Pod) {l : List Pod}
+    (h : l.Pairwise (fun a b => podKey a ≤ podKey b)) :
+    (insertPod p l).Pairwise (fun a b => podKey a ≤ podKey b) := by
+  induction l with
+  | nil => simp [insertPod]
+  | cons q qs ih =>
+    rw [List.pairwise_cons] at h
+    unfold insertPod
+    split
+    · rename_i hle
+      rw [List.pairwise_cons]
+      refine ⟨?_, List.pairwise_cons.mpr h⟩
+      intro x hx
+      rcases List.mem_cons.mp hx with rfl | hx'
+      · exact hle
+      · exact String.le_trans hle (h.1 x hx')
+    · rename_i hle
+      have hqp : podKey q ≤ podKey p := by
+        rcases String.le_total (podKey p) (podKey q) with h1 | h1
+        · exact absurd h1 hle
+        · exact h1
+      rw [List.pairwise_cons]
+      refine ⟨?_, ih h.2⟩
+      intro x hx
+      rcases List.mem_cons.mp ((insertPod_perm p qs).mem_iff.mp hx) with rfl | hx'
+      · exact hqp
+      · exact h.1 x hx'
+
+theorem isortPods_sorted (l : List Pod) :
+    (isortPods l).Pairwise (fun a b => podKey a ≤ podKey b) := by
+  induction l with
+  | nil => exact List.Pairwise.nil
+  | cons p l ih => exact insertPod_sorted p ih
+
+theorem eq_of_podKey_eq_of_nodup {l : List Pod} (hn : (l.map podKey).Nodup) {a b : Pod}
+    (ha : a ∈ l) (hb : b ∈ l) (hk : podKey a = podKey b) : a = b := by
+  induction l with
+  | nil => cases ha
+  | cons z zs ih =>
+    rw [List.map_cons, List.nodup_cons] at hn
+    rcases List.mem_cons.mp ha with rfl | ha' <;> rcases List.mem_cons.mp hb with rfl | hb'
+    · rfl
+    · exact absurd (List.mem_map.mpr ⟨b, hb', hk.symm⟩) hn.1
+    · exact absurd (List.mem_map.mpr ⟨a, ha', hk⟩) hn.1
+    · exact ih hn.2 ha' hb'
+
+/-- on a pod map (unique keys) the sorted pods are the insertion-sorted pods -/
+theorem sortedPods_eq_isort {e : Engine} (hn : (e.pods.map podKey).Nodup) :
+    e.sortedPods = isortPods e.pods := by
+  refine List.Perm.eq_of_pairwise (le := fun a b => podKey a ≤ podKey b) ?_ (sortedPods_sorted e)
+    (isortPods_sorted e.pods) ((sortedPods_perm e).trans (isortPods_perm e.pods).symm)
+  intro a b ha hb h1 h2
+  exact eq_of_podKey_eq_of_nodup hn (mem_sortedPods.mp ha) ((isortPods_perm _).mem_iff.mp hb)
+    (String.le_antisymm h1 h2)
+
+/-- `podOwnersMap` as `decide` can evaluate it -/
+def podOwnersMapD (e : Engine) : Except Err (List (String × Pod)) :=
+  podOwnersMapOf (isortPods e.pods)
+
+theorem podOwnersMap_eq_D {e : Engine} (hn : (e.pods.map podKey).Nodup) :
+    e.podOwnersMap = podOwnersMapD e := by
+  unfold podOwnersMap podOwnersMapD; rw [sortedPods_eq_isort hn]
+
+theorem podOwnersMap_eq {e : Engine} {l : List Pod} (hp : l.Perm e.pods)
+    (hs : l.Pairwise (fun a b => podKey a < podKey b)) : e.podOwnersMap = podOwnersMapOf l := by
+  unfold podOwnersMap; rw [sortedPods_eq hp hs]
+
 /-- the key under which the first pod of an owner is remembered -/
-def ownerKey (p : Pod) : String := p.ns ++ "//" ++ p.ownerName
+def ownerKey (p : Pod) : String := p.ns ++ "//" ++ p.ownerKind ++ "/" ++ p.ownerName
 
 /-- one step of the loop of `podOwnersMap` -/
 theorem go_cons (firsts res : List (String × Pod)) (p : Pod) (rest : List Pod) :
-    podOwnersMap.go firsts res (p :: rest) =
+    podOwnersMapOf.go firsts res (p :: rest) =
       if p.ownerName == "" then
-        podOwnersMap.go firsts (upsert (·.1) (workloadName p, p) res) rest
+        podOwnersMapOf.go firsts (upsert (·.1) (workloadName p, p) res) rest
       else match firsts.find? (·.1 == ownerKey p) with
-        | none => podOwnersMap.go (firsts ++ [(ownerKey p, p)])
+        | none => podOwnersMapOf.go (firsts ++ [(ownerKey p, p)])
             (upsert (·.1) (workloadName p, p) res) rest
         | some (_, f) =>
           if labelsEq f.labels p.labels then
-            podOwnersMap.go firsts (upsert (·.1) (workloadName p, p) res) rest
+            podOwnersMapOf.go firsts (upsert (·.1) (workloadName p, p) res) rest
           else .error .ownerLabels := by
-  rw [podOwnersMap.go]
+  rw [podOwnersMapOf.go]
   unfold ownerKey
   by_cases h1 : (p.ownerName == "") = true
   · simp only [h1, if_true]
   · simp only [h1, Bool.false_eq_true, if_false]
-    cases firsts.find? (·.1 == p.ns ++ "//" ++ p.ownerName) with
+    cases firsts.find? (·.1 == p.ns ++ "//" ++ p.ownerKind ++ "/" ++ p.ownerName) with
     | none => rfl
     | some kf =>
       obtain ⟨k, f⟩ := kf
@@ -1098,9 +1231,9 @@ theorem go_cons (firsts res : List (String × Pod)) (p : Pod) (rest : List Pod) 
 
 /-- the only error of the loop -/
 theorem go_error {firsts res : List (String × Pod)} {l : List Pod} {err : Err}
-    (h : podOwnersMap.go firsts res l = .error err) : err = .ownerLabels := by
+    (h : podOwnersMapOf.go firsts res l = .error err) : err = .ownerLabels := by
   induction l generalizing firsts res with
-  | nil => simp [podOwnersMap.go] at h
+  | nil => simp [podOwnersMapOf.go] at h
   | cons p rest ih =>
     rw [go_cons] at h
     split at h
@@ -1116,7 +1249,7 @@ differ from those of `f` raises the error -/
 theorem go_first_conflict {firsts res : List (String × Pod)} {l : List Pod} {k : String} {f q : Pod}
     (hf : firsts.find? (·.1 == ownerKey q) = some (k, f)) (hq : q ∈ l) (hown : q.ownerName ≠ "")
     (hne : labelsEq f.labels q.labels = false) :
-    podOwnersMap.go firsts res l = .error .ownerLabels := by
+    podOwnersMapOf.go firsts res l = .error .ownerLabels := by
   induction l generalizing firsts res with
   | nil => cases hq
   | cons p rest ih =>
@@ -1133,13 +1266,13 @@ theorem go_first_conflict {firsts res : List (String × Pod)} {l : List Pod} {k 
           · exact ih hf hq'
           · rfl
 
-/-- two pods of one owner (same namespace, same non-empty owner name) with different labels, at
-any two positions of the pod list: the error is raised -/
+/-- two pods of one owner (same namespace, same owner kind, same non-empty owner name) with
+different labels, at any two positions of the pod list: the error is raised -/
 theorem go_owner_labels {firsts res : List (String × Pod)} (l1 l2 l3 : List Pod) {p q : Pod}
-    (hns : p.ns = q.ns) (hown : p.ownerName = q.ownerName) (hne : p.ownerName ≠ "")
-    (hl : labelsEq p.labels q.labels = false) :
-    podOwnersMap.go firsts res (l1 ++ p :: (l2 ++ q :: l3)) = .error .ownerLabels := by
-  have hkey : ownerKey p = ownerKey q := by unfold ownerKey; rw [hns, hown]
+    (hns : p.ns = q.ns) (hkind : p.ownerKind = q.ownerKind) (hown : p.ownerName = q.ownerName)
+    (hne : p.ownerName ≠ "") (hl : labelsEq p.labels q.labels = false) :
+    podOwnersMapOf.go firsts res (l1 ++ p :: (l2 ++ q :: l3)) = .error .ownerLabels := by
+  have hkey : ownerKey p = ownerKey q := by unfold ownerKey; rw [hns, hkind, hown]
   have hq : q ∈ l2 ++ q :: l3 := List.mem_append_right _ (List.mem_cons_self ..)
   induction l1 generalizing firsts res with
   | nil =>
@@ -1174,6 +1307,25 @@ theorem go_owner_labels {firsts res : List (String × Pod)} (l1 l2 l3 : List Pod
         · exact ih
         · rfl
 
+/-- two occurrences in a list are two occurrences, in one of the two orders, in every permutation
+of it -/
+theorem perm_two_split {α : Type} {l l' : List α} (hp : l.Perm l') {l1 l2 l3 : List α} {p q : α}
+    (h : l = l1 ++ p :: (l2 ++ q :: l3)) :
+    (∃ a b c, l' = a ++ p :: (b ++ q :: c)) ∨ (∃ a b c, l' = a ++ q :: (b ++ p :: c)) := by
+  subst h
+  have hpm : p ∈ l' := hp.mem_iff.mp (List.mem_append_right _ (List.mem_cons_self ..))
+  obtain ⟨a, b, rfl⟩ := List.append_of_mem hpm
+  have h1 : (p :: (a ++ b)).Perm (p :: (l1 ++ (l2 ++ q :: l3))) :=
+    (List.perm_middle.symm.trans hp.symm).trans List.perm_middle
+  have h2 : (a ++ b).Perm (l1 ++ (l2 ++ q :: l3)) := h1.cons_inv
+  have hq : q ∈ a ++ b := h2.mem_iff.mpr
+    (List.mem_append_right _ (List.mem_append_right _ (List.mem_cons_self ..)))
+  rcases List.mem_append.mp hq with hqa | hqb
+  · obtain ⟨a1, a2, rfl⟩ := List.append_of_mem hqa
+    exact Or.inr ⟨a1, a2, b, by simp⟩
+  · obtain ⟨b1, b2, rfl⟩ := List.append_of_mem hqb
+    exact Or.inl ⟨a, b1, b2, rfl⟩
+
 /-! ### the workload names of the peers list are distinct -/
 
 theorem map_key_upsert {α : Type} (key : α → String) (x : α) (l : List α) :
@@ -1204,10 +1356,10 @@ theorem nodup_upsert {α : Type} (key : α → String) (x : α) {l : List α} (h
     exact hx ha
 
 theorem go_nodup {firsts res r : List (String × Pod)} {l : List Pod}
-    (hres : (res.map (·.1)).Nodup) (h : podOwnersMap.go firsts res l = .ok r) :
+    (hres : (res.map (·.1)).Nodup) (h : podOwnersMapOf.go firsts res l = .ok r) :
     (r.map (·.1)).Nodup := by
   induction l generalizing firsts res with
-  | nil => simp [podOwnersMap.go] at h; subst h; exact hres
+  | nil => simp [podOwnersMapOf.go] at h; subst h; exact hres
   | cons p rest ih =>
     rw [go_cons] at h
     have hres' := nodup_upsert (·.1) (workloadName p, p) hres
@@ -1238,9 +1390,9 @@ theorem mem_upsert {α : Type} {key : α → String} {x y : α} {l : List α}
 /-- every entry of the result comes from the initial result or is (workload name of a pod, pod) -/
 theorem go_forall (Q : String × Pod → Prop) {firsts res r : List (String × Pod)} {l : List Pod}
     (hres : ∀ x ∈ res, Q x) (hl : ∀ p ∈ l, Q (workloadName p, p))
-    (h : podOwnersMap.go firsts res l = .ok r) : ∀ x ∈ r, Q x := by
+    (h : podOwnersMapOf.go firsts res l = .ok r) : ∀ x ∈ r, Q x := by
   induction l generalizing firsts res with
-  | nil => simp [podOwnersMap.go] at h; subst h; exact hres
+  | nil => simp [podOwnersMapOf.go] at h; subst h; exact hres
   | cons p rest ih =>
     rw [go_cons] at h
     have hres' : ∀ x ∈ upsert (·.1) (workloadName p, p) res, Q x := by
